@@ -28,6 +28,7 @@ func concGenFor(r *Run, rng *rand.Rand, nWriters, nReaders, shapeIdx int) *concG
 		{{"Update", 1}, {"Update", 2}},
 		{{"Truncate", 1}, {"Handle", 2}},
 		{{"Delete", 1}, {"Handle", 1}},
+		{{"Update", 1}, {"Iter", 1}}, // the last thing the transaction does before Commit is to look at itself
 	}
 	shape := txnShapes[shapeIdx%len(txnShapes)]
 	if shape[0][0] == "Update" {
@@ -65,7 +66,7 @@ func checkC05(r *Run) {
 	rng := rand.New(rand.NewSource(r.Seed))
 	// every transaction shape (two inserts; update then write below; two updates; truncate then insert;
 	// delete then re-insert) against a one-call writer and a reader, on key sets that share tree nodes
-	for i := 0; i < pick(r, 5, 15); i++ {
+	for i := 0; i < pick(r, 6, 18); i++ {
 		exploreConc(r, concGenFor(r, rng, 2, 1, i), "", pick(r, 5*time.Minute, 30*time.Minute))
 	}
 	exploreConc(r, concGenFor(r, rng, 3, 1, int(r.Seed)), "", pick(r, 5*time.Minute, 30*time.Minute))
